@@ -512,6 +512,8 @@ impl Program {
             }
             fn fix_comp(c: &mut Comp, top: bool, complete: &dyn Fn(usize) -> bool, any_type: &dyn Fn(usize) -> bool, has_flex: &dyn Fn(usize) -> bool, before: &[Decl]) {
                 let nfields = c.fields.len();
+                // a flexible array needs another *named* member in front of it
+                let named_before_last = c.fields.iter().take(nfields.saturating_sub(1)).any(|f| !f.name.is_empty());
                 for (fi, f) in c.fields.iter_mut().enumerate() {
                     match &mut f.ty {
                         FieldTy::Ty(t) => {
@@ -522,7 +524,7 @@ impl Program {
                             // flexible array: last member of a top-level struct that has another member
                             if let Ty::Array { dims, .. } = t {
                                 let last = fi + 1 == nfields;
-                                if dims[0] == ArrLen::Flexible && !(top && last && nfields > 1 && !c.is_union) {
+                                if dims[0] == ArrLen::Flexible && !(top && last && nfields > 1 && named_before_last && !c.is_union) {
                                     dims[0] = ArrLen::Fixed(2);
                                 }
                             }
